@@ -279,6 +279,8 @@ class ReadWriteMultipleRegistersRequest(ModbusRequest):
             return self.doException(merror.IllegalValue)
         if (self.write_byte_count != self.write_count * 2):
             return self.doException(merror.IllegalValue)
+        if len(self.write_registers) != self.write_count:
+            return self.doException(merror.IllegalValue)
         if not context.validate(self.function_code, self.write_address,
                                 self.write_count):
             return self.doException(merror.IllegalAddress)
